@@ -20,7 +20,7 @@ import (
 func init() { families["c20"] = runC20; families["c20child"] = runC20Child }
 
 // Child: logs numbered lines through a synchronous logger and acknowledges every returned call on fd 3.
-// args: <kind file|rolling|console> <layout 0|1> <goroutines> <dir> <exitAfter (0 = run until killed)> <durationMs>
+// args: <kind file|rolling|console> <layout 0|1> <goroutines> <dir> <exitAfter (0 = run until killed)> <durationMs> [<maxAge hours>]   (the time zone comes from TZ)
 func runC20Child(_ []string, _ *bufio.Writer, args []string) {
 	kind, lay, dir := args[0], args[1] == "1", args[3]
 	ng, _ := strconv.Atoi(args[2])
@@ -36,6 +36,9 @@ func runC20Child(_ []string, _ *bufio.Writer, args []string) {
 	case "rolling":
 		cfg["appender.a.type"], cfg["appender.a.fileDir"], cfg["appender.a.fileName"] = "RollingFile", dir, "a.log"
 		cfg["appender.a.rotation"], cfg["appender.a.maxAge"] = "1s", "24"
+		if len(args) > 6 {
+			cfg["appender.a.maxAge"] = args[6]
+		}
 	default:
 		cfg["appender.a.type"] = "Console"
 	}
@@ -75,7 +78,7 @@ func runC20Child(_ []string, _ *bufio.Writer, args []string) {
 	os.Exit(0)
 }
 
-// Case: "<kind> <layout> <goroutines> <mode kill|exit> <k acknowledgements before the crash> <durationMs>"
+// Case: "<kind> <layout> <goroutines> <mode kill|exit> <k acknowledgements before the crash> <durationMs> [<TZ> <maxAge hours>]"
 // Observation: "acked=<n> complete=<n> missing=<ids>"
 func runC20(cases []string, out *bufio.Writer, _ []string) {
 	base, _ := os.MkdirTemp("/var/tmp", "verif-c20-")
@@ -98,7 +101,14 @@ func runC20(cases []string, out *bufio.Writer, _ []string) {
 			if mode == "exit" {
 				exitAfter = f[4]
 			}
-			cmd := exec.Command(self, "c20child", "-", os.DevNull, kind, f[1], f[2], dir, exitAfter, f[5])
+			cargs := []string{"c20child", "-", os.DevNull, kind, f[1], f[2], dir, exitAfter, f[5]}
+			if len(f) > 7 {
+				cargs = append(cargs, f[7])
+			}
+			cmd := exec.Command(self, cargs...)
+			if len(f) > 6 { // the retention scan started by every rotation runs in the process's time zone
+				cmd.Env = append(os.Environ(), "TZ="+f[6])
+			}
 			pr, pw, _ := os.Pipe()
 			cmd.ExtraFiles = []*os.File{pw}
 			stdoutFile := filepath.Join(dir, "stdout.txt")
